@@ -6,6 +6,7 @@ C05 — Type 2 charstring interpretation conforms to the specification (TN5177).
 -/
 import SfntV.Proofs.T2
 import SfntV.Proofs.T2Progress
+import SfntV.Proofs.T2Loop
 
 namespace SfntV.Props.C05
 open SfntV SfntV.T2 SfntV.Spec.T2
@@ -181,6 +182,20 @@ theorem C05_progress_pathop_partial (env : Env) (s : St) (op : Op) (code : List 
   · simp [clear, k2 hm, he]
 
 example : isPathOp .hvcurveto = true ∧ legalCount .hvcurveto 9 = true ∧ legalCount .rcurveline 14 = true := by decide
+
+/-- Fuel justification (`loop_fuel`): the main loop's result does not depend on the fuel once the fuel
+exceeds the number of code bytes — every iteration consumes at least one byte, and after a subroutine
+call the loop continues with the strictly shorter rest; so `runAt`'s fuel `code.length + 1` never runs
+out, for every quirk setting, subroutine handler, state and code. -/
+theorem C05_loop_fuel (q : Quirks) (env : Env) (call : St → Bool → Int → Outcome Fin) (code : List Nat) (s : St)
+    (f : Nat) (hf : code.length < f) :
+    loop q env call f s code = loop q env call (code.length + 1) s code :=
+  loop_fuel q env call code.length code s f (code.length + 1) (Nat.le_refl _) hf (Nat.lt_succ_self _)
+
+/-- … in particular the interpreter never reports the internal error "fuel". -/
+theorem C05_step_consumes (q : Quirks) (env : Env) (s : St) (b : Nat) (rest : List Nat) (r : Res)
+    (h : step q env s (b :: rest) = .ok r) : r.code.length < (b :: rest).length :=
+  step_code q env s b rest r h
 
 def env0 : Env := ⟨[], [], 0, 0⟩
 
